@@ -96,31 +96,56 @@ def condWidth (c : Option TL) : Nat :=
   | some l => joinedWidth l
   | none => 0
 
-/-- one round of the loop of `_process_case`; the `stmt` of the appended END case is `none` when there is no `END` -/
+/-- `if i > 0: tlist.insert_before(stmt, self.nl(offset_ - len(str(stmt))))`; a `stmt` of `None` (no `END`) makes
+`tokens.index(None)` raise ValueError -/
+def aCaseBreak (char : Text) (st : ASt) (i : Nat) (tl : TL) (stmt : Option (Nat × FNode)) : Except PyErr TL :=
+  if i > 0 then
+    match stmt with
+    | none => .error .valueError
+    | some (t, n) =>
+      match tlIndex tl t with
+      | none => .error .valueError
+      | some idx => .ok (insertAt tl idx (0, aNl char st (10 - (n.text.length : Int))))
+  else .ok tl
+
+/-- `if cond: tlist.insert_after(cond[-1], ws)` with the padding that aligns the `THEN`s -/
+def aCasePad (char : Text) (maxW : Nat) (tl1 : TL) (cond : Option TL) : Except PyErr TL :=
+  match cond with
+  | some (c0 :: crest) =>
+    match tlIndex tl1 ((c0 :: crest).getLast?.getD c0).1 with
+    | none => .error .valueError
+    | some idx =>
+      .ok (insertAfterIdx tlWs tl1 idx
+        (0, .tok T.Whitespace (repeatText char ((maxW : Int) - (joinedWidth (c0 :: crest) : Int)))))
+  | _ => .ok tl1
+
+/-- the loop of `_process_case`; the `stmt` of the appended END case is `none` when there is no `END` -/
 def aCaseLoop (char : Text) (st : ASt) (maxW : Nat) : Nat → TL → List (Option TL × Option (Nat × FNode)) → Except PyErr TL
   | _, tl, [] => .ok tl
   | i, tl, (cond, stmt) :: rest =>
-    let tl1 : Except PyErr TL :=
-      if i > 0 then
-        match stmt with
-        | none => .error .valueError                         -- `tokens.index(None)`
-        | some (t, n) =>
-          match tlIndex tl t with
-          | none => .error .valueError
-          | some idx => .ok (insertAt tl idx (0, aNl char st (10 - (n.text.length : Int))))
-      else .ok tl
-    match tl1 with
+    match aCaseBreak char st i tl stmt with
     | .error e => .error e
     | .ok tl1 =>
-      match cond with
-      | some (c0 :: crest) =>
-        let lastTag := ((c0 :: crest).getLast?.getD c0).1
-        match tlIndex tl1 lastTag with
-        | none => .error .valueError
-        | some idx =>
-          let ws : FNode := .tok T.Whitespace (repeatText char ((maxW : Int) - (joinedWidth (c0 :: crest) : Int)))
-          aCaseLoop char st maxW (i + 1) (insertAfterIdx tlWs tl1 idx (0, ws)) rest
-      | _ => aCaseLoop char st maxW (i + 1) tl1 rest
+      match aCasePad char maxW tl1 cond with
+      | .error e => .error e
+      | .ok tl2 => aCaseLoop char st maxW (i + 1) tl2 rest
+
+/-- `stmt = cond[0] if cond else value[0]` -/
+def aCaseStmtOf (cv : Option TL × TL) : Except PyErr (Option TL × Option (Nat × FNode)) :=
+  match cv.1 with
+  | some (c0 :: _) => .ok (cv.1, some c0)
+  | _ => match cv.2 with
+    | v0 :: _ => .ok (cv.1, some v0)
+    | [] => .error .indexError
+
+/-- the `(cond, stmt)` pairs the loop of `_process_case` visits: the cases, then the appended `(None, [end_token])` -/
+def aCaseStmts (endTok : Option (Nat × FNode)) : List (Option TL × TL) → Except PyErr (List (Option TL × Option (Nat × FNode)))
+  | [] => .ok [(none, endTok)]
+  | cv :: rest =>
+    match aCaseStmtOf cv, aCaseStmts endTok rest with
+    | .ok x, .ok xs => .ok (x :: xs)
+    | .error e, _ => .error e
+    | _, .error e => .error e
 
 /-- `_process_case` -/
 def aCase (char : Text) (st : ASt) (ks : List FNode) : Except PyErr (List FNode × ASt) :=
@@ -129,22 +154,8 @@ def aCase (char : Text) (st : ASt) (ks : List FNode) : Except PyErr (List FNode 
   | .error e => .error e
   | .ok cases =>
     let endTok := tl.find? (fun e => e.2.matchKw "END")
-    -- `stmt = cond[0] if cond else value[0]`
-    let stmtOf (cv : Option TL × TL) : Except PyErr (Option TL × Option (Nat × FNode)) :=
-      match cv.1 with
-      | some (c0 :: _) => .ok (cv.1, some c0)
-      | _ => match cv.2 with
-        | v0 :: _ => .ok (cv.1, some v0)
-        | [] => .error .indexError
-    let rec stmts : List (Option TL × TL) → Except PyErr (List (Option TL × Option (Nat × FNode)))
-      | [] => .ok [(none, endTok)]
-      | cv :: rest =>
-        match stmtOf cv, stmts rest with
-        | .ok x, .ok xs => .ok (x :: xs)
-        | .error e, _ => .error e
-        | _, .error e => .error e
     let maxW := (cases.map fun cv => condWidth cv.1).foldl max 0
-    match stmts cases with
+    match aCaseStmts endTok cases with
     | .error e => .error e
     | .ok items => (aCaseLoop char st maxW 0 tl items).map fun tl' => (untag tl', st)
 
